@@ -4,7 +4,7 @@ CONSTANTS FallbackMode = "last"
  CancelMode = "coded"
  WaitMode = "none"
  MaxP = 3
- MaxB = 2
+ MaxB = 1
  MaxDeaf = 1
 PROPERTIES SuccessIfAny CancelPrompt Terminates
 CHECK_DEADLOCK FALSE
